@@ -51,7 +51,7 @@ COMPONENTS = {
 }
 PROBES = {"commit_written_during_maintenance": 1, "maintainer_removed_files": 1,
           "unreachable_pruned": 1, "young_unreachable_kept": 1,
-          "lookup_during_maintenance": 1}
+          "lookup_during_maintenance": 1, "linked_worktree_head": 1}
 MIN_BUDGET = 200
 
 DAY = 86400
@@ -87,6 +87,7 @@ def gen_plan(seed, tier):
 BUILD = ["add_loose_reach", "add_loose_reach", "add_loose_garbage",
          "add_pack_reach", "add_pack_garbage", "dup_pack", "move_ref",
          "delete_ref", "detach_head", "attach_head", "tag", "readd",
+         "worktree_head",
          "advance_hours", "advance_days", "advance_weeks", "skew_back"]
 MAINT = ["pack_loose", "repack", "gc_none", "gc_zero", "gc_default",
          "prune_unreach_default", "prune_unreach_zero", "prune_tmp",
@@ -197,8 +198,10 @@ def run_history(plan):
         def now():
             return sim.clock.now_ns / 1e9
 
+        wt_heads = {}  # linked work trees: name -> detached HEAD
+
         def reach():
-            vals = list(refs.values())
+            vals = list(refs.values()) + list(wt_heads.values())
             if head[0] == "sha":
                 vals.append(head[1])
             return u.closure(vals)
@@ -315,6 +318,35 @@ def run_history(plan):
                 elif op == "attach_head":
                     r.refs.set_symbolic_ref(b"HEAD", b"refs/heads/main")
                     head = ("sym", b"refs/heads/main")
+                elif op == "worktree_head":
+                    # a linked work tree (git worktree add --detach), laid
+                    # out as git does: its HEAD is a HEAD too
+                    lh = live_heads()
+                    if lh:
+                        tgt = srng.choice(lh)
+                        wn = "w%d" % (step["x"] % 2)
+                        adm = os.path.join(rp, ".git", "worktrees", wn)
+                        wtp = os.path.join(root, "linked-" + wn)
+                        R.makedirs(adm, exist_ok=True)
+                        R.makedirs(wtp, exist_ok=True)
+                        for fn, data in (
+                                ("HEAD", tgt + b"\n"),
+                                ("commondir", b"../..\n"),
+                                ("gitdir", os.fsencode(
+                                    os.path.join(wtp, ".git")) + b"\n")):
+                            with open(os.path.join(adm, fn), "wb") as f:
+                                f.write(data)
+                        with open(os.path.join(wtp, ".git"), "wb") as f:
+                            f.write(b"gitdir: " + os.fsencode(adm) + b"\n")
+                        wt_heads[wn] = tgt
+                        sim.stat("probe:linked_worktree_head")
+                        if step["x"] % 3 != 0:
+                            # ... and the branches it was taken from go
+                            for nm in [n for n in sorted(refs)
+                                       if refs[n] == tgt and
+                                       n != b"refs/heads/main"]:
+                                del r.refs[nm]
+                                del refs[nm]
                 elif op == "tag":
                     have = present | alt_ids
                     cands = sorted(i for i in present
